@@ -3,6 +3,7 @@
   Property theorems only; helper lemmas live in CedarProofs/{CodecLemmas,CodecStr}.lean.
 -/
 import CedarProofs.CodecStr
+import CedarProofs.CodecDouble
 
 namespace Cedar.C14
 
@@ -118,6 +119,36 @@ theorem double_layout (enc : Bool) (m e : Int)
   rw [layout enc (dblVals m e) hwf]
   simp [dblVals, Spec.encAll, Spec.enc]
   rfl
+
+/-- **double_frac_range**: for every finite double (`|m| < 2^53`) the scaled fraction fits the
+    int32 the sender converts it to (`|fracInt| < 2^31 − 1`), has the sign of the value, and the
+    exponent travels unchanged. -/
+theorem double_frac_range (m e : Int) (hm : m.natAbs < twoPow53) :
+    (encodeDbl m e).1.natAbs < fracConst ∧ ((encodeDbl m e).1 < 0 → m < 0) ∧ (encodeDbl m e).2 = e :=
+  ⟨by rw [encodeDbl_abs]; exact fracOfNat_lt _ hm, encodeDbl_sign m e, rfl⟩
+
+/-- **double_precision** (about the model's `encodeDbl` / `decodeDbl`): for every finite non-zero
+    double `m · 2^(e−53)`, `2^52 ≤ |m|`, the receiver reconstructs `fi / FracConst · 2^ex` with
+    `(fi, ex) = encodeDbl m e`: the exponent is `e`, the denominator is `FracConst = 2^31 − 1`, and
+    the fraction is within relative error `2^-29` of `m / 2^53` — on magnitudes and without
+    division: `| |fi|·2^53 − |m|·FracConst | · 2^29 ≤ FracConst · |m|` (both truncated differences).
+    The same bound holds for EVERY magnitude `q` that is `NearN` the exact quotient, which is
+    what a Go run puts on the wire (float rounding before the truncation: the trusted part,
+    measured with exact integers by the codec engine on every double sent). -/
+theorem double_precision (m e : Int) (hm : twoPow53 / 2 ≤ m.natAbs) :
+    (decodeDbl (encodeDbl m e).1 (encodeDbl m e).2).2 = e ∧
+    (decodeDbl (encodeDbl m e).1 (encodeDbl m e).2).1.2 = fracConst ∧
+    (((encodeDbl m e).1.natAbs * twoPow53 - m.natAbs * fracConst) * 536870912 ≤ fracConst * m.natAbs ∧
+     (m.natAbs * fracConst - (encodeDbl m e).1.natAbs * twoPow53) * 536870912 ≤ fracConst * m.natAbs) ∧
+    ∀ q, NearN m.natAbs q →
+      (q * twoPow53 - m.natAbs * fracConst) * 536870912 ≤ fracConst * m.natAbs ∧
+      (m.natAbs * fracConst - q * twoPow53) * 536870912 ≤ fracConst * m.natAbs := by
+  refine ⟨rfl, rfl, ?_, fun q hq => precisionN _ q hm hq⟩
+  rw [encodeDbl_abs]
+  exact precisionN _ _ hm (fracOfNat_near _)
+
+/-- non-vacuity: 1.0 = 2^52 · 2^(1−53) travels as (⌊FracConst/2⌋, 1); −0.75 keeps its sign -/
+example : encodeDbl 4503599627370496 1 = (1073741823, 1) ∧ encodeDbl (-6755399441055744) 0 = (-1610612735, 0) := by decide
 
 /-- **typed frames fit** (shared with C01): the integer and character encoders never let the
     buffer or a flushed frame exceed the largest payload a frame may carry in the current mode. -/
